@@ -1,6 +1,6 @@
 (* C14 - B-tree v2 name index is a faithful, persistent map under any history; the key hash equals
    Jenkins lookup3 for every byte string.   Statements only; proofs in Proofs/Lookup3.v, Proofs/BT2.v,
-   Proofs/BT2Examples.v.  Model: Model/BT2.v (WritableBTreeV2 with notes/fixes/c14-duplicate-key).
+   Proofs/BT2Examples.v.  Model: Model/BT2.v (WritableBTreeV2 as of /repo 6c2e9ef).
 
    Hypotheses used below (Proofs/BT2.v):
      cfg_ok c   : offset size in {1,2,4,8}; node size N (0 = default 4096) with 10 <= N < 2^32 and
